@@ -67,3 +67,24 @@ func TestC10LongLived(t *testing.T) {
 			return out, nil
 		}}, batches)
 }
+
+// TestC10LostReplies: the fault class "the reply of a relayed raw request never arrives completely" as a fixed grid.
+func TestC10LostReplies(t *testing.T) {
+	var cases []vh.ShimCase
+	for _, noUp := range []bool{false, true} {
+		for _, kind := range []string{"close", "truncate", "oversize"} {
+			for _, what := range []string{"forward", "extension"} {
+				code, op := 200, vh.Op{Kind: "forward", Cert: -1, Body: []byte{200, 1, 2, 3, 4}}
+				if what == "extension" {
+					code, op = vh.CodeExtension, vh.Op{Kind: "extension", Cert: -1, Body: []byte("payload")}
+				}
+				cases = append(cases, vh.ShimCase{NoUpstream: noUp, Certs: []vh.CertDef{{Key: "p256b", KeyIDClass: "text", Validity: "current", Serial: 1000}},
+					Initial: []vh.Op{{Kind: "oobadd", Key: "p256b", Cert: -1}},
+					Ops: []vh.Op{{Kind: "list", Cert: -1}, {Kind: "plan", Cert: -1, Plan: []vh.FaultRule{{Index: -1, Code: code, Kind: kind, Remaining: 1}}}, op, {Kind: "list", Cert: -1}}})
+			}
+		}
+	}
+	vh.Enumerate(t, vh.Spec[vh.ShimCase]{Property: "C10", Name: "TestC10LostReplies", Exhaustive: true,
+		Rule: "both upstream modes x a raw forward / an extension call x the underlying agent closing the connection instead of answering, cutting its reply short inside the frame, or declaring an oversize reply (12 histories). Oracle: the shim reference model - a reply that never arrived completely comes back as an error, never as a shorter reply; nothing crashes",
+		Exec: exec}, cases)
+}
